@@ -2,8 +2,8 @@ SPECIFICATION Spec
 CONSTANTS
   Vers = {"sasl", "sasl2"}
   Mechs = {"PLAIN", "DIGEST-MD5", "ANONYMOUS", "X-UNKNOWN"}
-  Creds = {"right", "wrongPw", "otherUser", "malformed", "empty"}
-  BindRes = {"ra", "rv"}
+  Creds = {"right", "otherUser", "malformed", "empty"}
+  BindRes = {"ra"}
   Kinds = {"message", "presence", "iq"}
   Froms = {"absent", "own", "ownBare", "victim", "other"}
   Tos = {"victimBare", "victimFull", "domain", "absent"}
